@@ -16,6 +16,8 @@ PROPS = ["C01", "C02", "C03", "C04", "C05", "C06", "C07", "C08", "C09", "C10", "
 def main():
     d = sys.argv[1]
     runs = sys.argv[2] if len(sys.argv) > 2 else "2500"
+    if os.path.exists("/tmp/rfres/SHORT"):
+        runs = str(min(int(runs), int(open("/tmp/rfres/SHORT").read().strip() or 500)))
     tmp = tempfile.mkdtemp(prefix="verif-refactor-")
     out = {"dir": d}
     try:
@@ -50,6 +52,7 @@ def main():
                             dst = os.path.join("/tmp", "fa_" + os.path.basename(d.rstrip("/")) + "_" + os.path.basename(rp))
                             shutil.copy(rp, dst)
         out["all_pass"] = not out["checks"]
+        out["runs_per_check"] = int(runs)
         print(json.dumps(out, indent=1))
         return 0
     finally:
